@@ -44,6 +44,9 @@ type Upstream struct {
 	Slow    time.Duration
 	// Latency is added to every exchange.
 	Latency time.Duration
+	// OnExchange, if set, is called at the start of every exchange (a
+	// scheduling point for a cooperative scheduler).
+	OnExchange func()
 
 	mu  sync.Mutex
 	seq uint64
@@ -85,6 +88,9 @@ func (u *Upstream) Exchange(req *dns.Msg) (resp *dns.Msg, err error) {
 	u.mu.Unlock()
 	if fault != UpOK && u.OnFault != nil {
 		u.OnFault(string(fault))
+	}
+	if u.OnExchange != nil {
+		u.OnExchange()
 	}
 	if u.Latency > 0 {
 		time.Sleep(u.Latency)
